@@ -225,10 +225,39 @@ def check(ctx):
     stats["fault_classes"] = collections.Counter()
     if fault_injection(ctx, build, stats):
         found = True
+    # ---- short transfers: a write that the file-size limit cuts short, a read that reaches the end of an image somebody
+    #      truncated — the system call reports no error, only a byte count; the disk must not report success
+    block7, block9 = "buf 4096 7", "buf 4096 9"
+    shorts = [
+        ("a write that is cut short by the file-size limit", ["new 4", block7, block9, "write 1 0", "fsize 8292", "write 2 1", "write 3 1", "read 1"],
+         {5: "panic", 6: "panic"}),
+        ("a write that is cut short after its first byte", ["new 4", block7, "fsize 4097", "write 1 0", "read 0"], {3: "panic"}),
+        ("a read of a block that lies partly beyond the end of a truncated image", ["new 4", block7, "write 1 0", "write 2 0", "extrunc 8292", "read 2", "read 1"],
+         {5: "panic"}),
+        ("a ReadTo of a block beyond the end of a truncated image into a used buffer", ["new 4", block7, "write 3 0", "extrunc 8192", "buf 4096 5", "readto 3 1", "read 2"],
+         {5: "panic", 6: "panic"}),
+    ]
+    for what, sops, must in shorts:
+        for impl in ("file", "afile", "gfile"):
+            scratch = C.scratch()
+            try:
+                rr = c09.run_real(impl, sops, scratch)
+            finally:
+                shutil.rmtree(scratch, ignore_errors=True)
+            stats["ops"] += len(sops)
+            stats["short_transfer_runs"] = stats.get("short_transfer_runs", 0) + 1
+            wrong = {i: rr[i] for i, w in must.items() if rr[i] != w}
+            if any(r.startswith("harness-error") or r in ("bad-op", "unsupported") for r in rr):
+                raise C.Infra("C11 short-transfer scenario could not be set up (%s): %s" % (impl, rr))
+            if wrong and not found:
+                found = True
+                ctx.violation("counterexample", "disk (%s): %s is reported as a success" % (impl, what),
+                              {"proto": "disk", "impl": impl, "ops": sops}, expected={"op %d (`%s`)" % (i, sops[i]): w for i, w in must.items()},
+                              observed={"op %d (`%s`)" % (i, sops[i]): r for i, r in wrong.items()})
     # fixed findings are re-run on every check: they suppress nothing and must stay fixed
     for e in C.load_known("C11"):
-        if e.get("status") != "fixed":
-            continue
+        if e.get("status") != "fixed" or not e.get("witness", "").endswith(".txt"):
+            continue          # (the short-transfer finding is re-run by the scenarios above)
         wops = [l.strip() for l in open(os.path.join(C.VERIF, e["witness"])) if l.strip()]
         scratch = C.scratch()
         try:
